@@ -494,6 +494,16 @@ func Monitors(h History, tr *Trace) []Failure {
 			if s.Abs != 0 && false {
 				_ = s
 			}
+			// the stored running sum at the end of the block is the sum of the accepted changes
+			if s.Abs != uint64(A) {
+				add("C05", "C05/stored-running-sum-differs-from-accepted-changes", ht, "stored %d, accepted changes sum to %d", s.Abs, A)
+				for _, op := range ops {
+					if op.Kind == "params" {
+						add("C16", "C16/parameter-update-changed-the-per-block-sum", ht, "stored %d, accepted changes sum to %d", s.Abs, A)
+						break
+					}
+				}
+			}
 			if s.Cached != uint64(T) {
 				add("C05", "C05/cached-total-differs-from-previous-set-total", ht, "cached %d, previous set total %d", s.Cached, T)
 			}
